@@ -22,6 +22,7 @@ package main
 // IEEE-754 bit pattern (16 hex digits): exact, no decimal round trip.
 //   pi (20) val (20) L (400, row-major) R (400)   the model of the unpermuted call
 //   pir, pic (20 each)                            frequencies of the two permuted calls
+//   valr, Lr, Rr / valc, Lc, Rc                   their eigen-systems, present only when pir / pic differ from pi
 //   p  (n*n)   what MLDist returns as `p`: JC69Dist's observed proportion of differences on the selected sites
 //   jc (n*n)   JC69Dist(a, w, all-true) distances
 //   d, dr, dc (n*n)  MLDist distances: original, rows permuted, columns permuted
@@ -65,6 +66,18 @@ func innerProtModel(m *protein.ProtDistModel) *pm.ProtModel {
 		panic("harness: ProtDistModel has no field `model`")
 	}
 	return reflect.NewAt(f.Type(), unsafe.Pointer(f.UnsafeAddr())).Elem().Interface().(*pm.ProtModel)
+}
+
+func sameBits(a, b []float64) bool {
+	if len(a) != len(b) {
+		return false
+	}
+	for i := range a {
+		if math.Float64bits(a[i]) != math.Float64bits(b[i]) {
+			return false
+		}
+	}
+	return true
 }
 
 type c17Run struct {
@@ -190,6 +203,13 @@ func init() {
 		sb.WriteString(";R=" + hexFloats(base.r))
 		sb.WriteString(";pir=" + hexFloats(rr.pi))
 		sb.WriteString(";pic=" + hexFloats(cr.pi))
+		// the eigen-system of a permuted call, only when its frequencies are not bit-identical to the first call's
+		if !sameBits(rr.pi, base.pi) {
+			sb.WriteString(";valr=" + hexFloats(rr.val) + ";Lr=" + hexFloats(rr.l) + ";Rr=" + hexFloats(rr.r))
+		}
+		if !sameBits(cr.pi, base.pi) {
+			sb.WriteString(";valc=" + hexFloats(cr.val) + ";Lc=" + hexFloats(cr.l) + ";Rc=" + hexFloats(cr.r))
+		}
 		sb.WriteString(";p=" + hexFloats(base.p))
 		sb.WriteString(";jc=" + hexFloats(denseAll(jc)))
 		sb.WriteString(";d=" + hexFloats(base.d))
